@@ -22,6 +22,17 @@ temp file behind; never more attempts than injected faults plus one; fewer trans
 end in an error.  The B2 re-authentication recursion (defect candidate D9) is reported by this oracle with the signature
 `b2:unbounded-reauth:status-<code>`.  `Local.upload` / `Local.download` (the non-streaming methods, same decorator) are probed with the
 same fault places × errno classes by the direct oracle only (`local_plain_probes`).
+
+Sessions (`harness/impl/c12_sessions.py`, model `Cred.runSession` in `lean/ReplicatModel/RetryCred.lean`): credentials have a LIFETIME.
+Histories of upload / upload_stream / download / download_stream / exists / delete / list_files on ONE long-lived B2 object run against
+a fake service that is stateful about which account tokens, upload URLs and upload tokens it still accepts; expiry / revocation events
+(account tokens expire, upload credentials expire, both, upload pods retired → 503) happen between operations and — scheduled by a
+request count — inside them.  A dead credential stays dead: a retry that presents it again is rejected again (the count-based plans
+above accept the unchanged retry).  Tie per operation: outcome, returned value, requests seen by the service, authorisations, sleeps.
+Direct oracle against a plain dict as the abstract store: every operation terminates within 3·max_tries·(1 + events) requests, returns
+normally, returns what the store says and leaves the service's objects equal to the store (`b2:session:<op>:…`, minimised history).
+The S3-compatible and the local adapter hold no credential with a lifetime (static keys, signed per request; C13 / C16 cover the
+signing key's date scope).
 """
 import asyncio
 import errno as errno_mod
@@ -33,7 +44,7 @@ import sys
 import time
 
 from ..common import WORK, rng_for
-from ..impl import fake_b2, fake_s3, faults
+from ..impl import c12_sessions, fake_b2, fake_s3, faults
 
 NAME = 'data/ab/cdef0123'
 KEY, SEC, REGION, HOST = 'AKIDEXAMPLE', 'wJalrXUtnFEMI/K7MDENG+bPxRfiCYEXAMPLEKEY', 'eu-west-1', 'objects.fake-s3.test'
@@ -849,6 +860,86 @@ def d9_recursion_probe(out, reclimit):
                                                                'authorisations': tokens, 'backoff_sleeps': len(SLEEPS)}
 
 
+# ------------------------------------------------------------------------------------------------ sessions: credentials with a lifetime
+def run_session_real(sess):
+    return loop().run_until_complete(c12_sessions.run_session(sess, SLEEPS, classify, wrap_reader, wrap_writer))
+
+
+def session_findings(sess, budget):
+    obs = run_session_real(sess)
+    return obs, c12_sessions.oracle(sess, obs, budget)
+
+
+def sessions_phase(out, drv, r, budget):
+    """histories of operations on ONE long-lived B2 object with credential events (expiry / revocation of account tokens, upload URLs,
+    upload tokens) between and inside the operations — `harness/impl/c12_sessions.py`, model `Cred.runSession`"""
+    S = c12_sessions
+    t0 = time.time()
+    sessions = S.gen_sessions(r, out.tier)
+    models = drv.ask_many([S.model_request(s) for s in sessions]) if drv is not None else [None] * len(sessions)
+    reported = set()
+    for sess, m in zip(sessions, models):
+        obs, bad = session_findings(sess, budget)
+        hit = any(o['rejected_credentials'] for o in obs)
+        out.case({'session': S.describe(sess)}, hit)
+        out.count('session:family:' + sess['family'].split('-')[0] + ('-' + sess['family'].split('-')[1] if '-' in sess['family'] else ''))
+        out.count('session:length:' + ('<=4' if len(sess['steps']) <= 4 else '<=8' if len(sess['steps']) <= 8 else '>8'))
+        if sess.get('restricted'):
+            out.count('session:key-restricted-to-bucket')
+        creds_held = uploaded = False
+        events_pending = []
+        for st in sess['steps']:
+            if 'event' in st:
+                out.count('session:event:' + st['event'])
+                events_pending.append(st['event'])
+                continue
+            out.count('session:op:' + st['op'])
+            if st.get('mid'):
+                out.count('session:event-inside-operation:' + st['mid']['event'])
+            if events_pending and creds_held:
+                out.count('session:op-after-credential-event:' + st['op'])
+                if uploaded and st['op'] in ('upload', 'upload_stream') and any(e != 'expire_account' for e in events_pending):
+                    out.count('session:upload-after-upload-credentials-died-on-an-object-that-uploaded-before')
+            creds_held = True
+            uploaded = uploaded or st['op'] in ('upload', 'upload_stream')
+            events_pending = [st['mid']['event']] if st.get('mid') else []
+        for o in obs:
+            out.count('session:outcome:' + o['outcome'])
+            out.count('session:rejected-credentials-seen-by-op:' + ('0' if not o['rejected_credentials'] else '1' if o['rejected_credentials'] == 1 else '2+'))
+            out.count('session:reauthorisations-in-op:%d' % min(o['auths'], 3))
+            if o.get('mid_fired_during_op'):
+                out.count('session:event-fired-between-two-requests-of-an-operation')
+        for sig, what, step in bad:
+            if sig in reported:
+                out.violation(sig, f'session {S.describe(sess)}: {what}', {'kind': 'session', 'session': sess, 'failing_step': step, 'observed': obs, 'model': m, 'budget': budget})
+                continue
+            reported.add(sig)
+            small = S.shrink(sess, step, lambda cand: any(b[0] == sig for b in session_findings(cand, budget)[1]))
+            sobs, sbad = session_findings(small, budget)
+            if not any(b[0] == sig for b in sbad):
+                small, sobs = sess, obs
+            sm = drv.ask(S.model_request(small)) if drv is not None else None
+            swhat = next((b[1] for b in sbad if b[0] == sig), what)
+            out.violation(sig, f'session {S.describe(small)}: {swhat}',
+                          {'kind': 'session', 'session': small, 'failing_step': len(small['steps']) - 1, 'observed': sobs, 'model': sm, 'budget': budget,
+                           'shrunk_from': S.describe(sess)})
+        if m is None:
+            continue
+        if 'error' in m:
+            out.disagreement('driver error (session)', {'kind': 'session', 'session': sess, 'reply': m})
+            continue
+        diffs = S.compare(obs, m)
+        if diffs:
+            out.disagreement('session: model and implementation differ on ' + ', '.join(sorted({d[1] for d in diffs})),
+                             {'kind': 'session', 'session': sess, 'diffs': [{'step': a, 'field': b, 'model': c, 'impl': d} for a, b, c, d in diffs[:10]],
+                              'observed': obs, 'model': m})
+        else:
+            out.traces_validated += 1
+    out.extra['sessions'] = {'count': len(sessions), 'operations': sum(1 for s in sessions for st in s['steps'] if 'op' in st),
+                             'credential_events': sum(1 for s in sessions for st in s['steps'] if 'event' in st or st.get('mid')),
+                             'wall_s': round(time.time() - t0, 1)}
+
+
 # ------------------------------------------------------------------------------------------------ entry points
 def evaluate(case, obs, m, cfg, out):
     diffs = compare(case, obs, m) if m is not None and 'error' not in m else None
@@ -874,13 +965,19 @@ def run(out, drv, info):
                 'every OSError class (errno) of the universe the local give-up predicate is tabulated over × {1, budget-1, budget} repetitions, ENOENT also as a state of the '
                 'directory (directory / temp file / object vanished: the OS raises) × 1 … budget+1; every HTTP transport fault × httpx exception class; plus random mixed plans '
                 '(classes mixed inside one plan) and '
-                'cases with the default 128000-byte chunk size; non-trivial = some fault strictly inside the transfer (0 < chunk index < number of chunks); distinct = hash of the case')
+                'cases with the default 128000-byte chunk size; non-trivial = some fault strictly inside the transfer (0 < chunk index < number of chunks); distinct = hash of the case.  '
+                'Sessions: history of operations (upload, upload_stream, download, download_stream, exists, delete, list) on ONE long-lived B2 object × credential events of a '
+                'stateful service (account tokens expire | upload URLs / tokens expire | both | upload pods retired) between operations and before the k-th request inside one; '
+                'systematic: objects warmed by 0–2 operations × 1–2 events × every operation, every operation × event × k; plus random histories of 3–16 (thorough: –60) steps; '
+                'non-trivial = some operation presented a credential the service no longer accepts')
     out.assumptions = ['the fake S3 / B2 services follow the published protocols and store an upload only when the body has the declared length (S3: and hashes to the signed digest)',
                        'a broken connection surfaces as a subclass of httpx.TransportError, a failing disk / a directory changed by another process as an OSError of one of the '
                        'errno classes of `osUniverse` (the class Python derives from the errno); re-authentication (b2_authorize_account) itself succeeds',
                        'faults hit the transfer request (PUT / POST upload / GET object) — faults on b2_get_upload_url are probed with the direct oracle only',
                        'the payload stream starts at position 0; chunk size ≥ 1; backoff, httpx, shutil.copyfileobj, io.BytesIO behave as modelled (validated by the differential runs only)',
-                       'one caller per adapter object (no concurrent re-authentication)']
+                       'one caller per adapter object (no concurrent re-authentication)',
+                       'sessions: a credential the service stopped accepting is never accepted again, credentials issued after an event are valid, b2_authorize_account with the '
+                       'application key always succeeds; a download names an object that is there (the 404 of a missing name is D9); no count-based fault inside a session']
     scratch = WORK / str(os.getpid()) / 'c12'
     try:
         cfg = {}
@@ -916,6 +1013,9 @@ def run(out, drv, info):
             out.count('position:' + ('inside' if nontrivial else 'edge'))
             evaluate(case, obs, m, cfg, out)
         out.extra['case_loop_s'] = round(time.time() - t0, 1)
+        sessions_phase(out, drv, rng_for(out.seed, 'C12', 'sessions'), budgets['b2'])
+        if drv is not None:
+            out.extra['extracted_configuration']['b2_session'] = drv.ask({'op': 'retry.sessioncfg'})
         local_plain_probes(out, budgets['local'], universe, scratch)
         nested_url_probes(out, budgets['b2'])
         b2_missing_object_probe(out, budgets['b2'])
@@ -967,6 +1067,19 @@ def replay(path, drv):
             return 1 if bad else 0
         finally:
             shutil.rmtree(WORK / str(os.getpid()), ignore_errors=True)
+    if rp.get('kind') == 'session':
+        budget = drv.ask({'op': 'retry.cfg', 'backend': 'b2'})['budget'] if drv is not None else rp.get('budget', 4)
+        sess = rp['session']
+        obs, bad = session_findings(sess, max(1, budget))
+        print('replay: session', c12_sessions.describe(sess))
+        for o in obs:
+            print('replay: step %d %s → %s, %d requests, %d authorisations, value %s; %s' % (o['step'], o['op'], o['outcome'], o['requests'], o['auths'],
+                                                                                              c12_sessions.short(o['value']), ' '.join(o['apis'][:8])))
+        for sig, what, _ in bad:
+            print('replay:', sig, '—', what)
+        if not bad:
+            print('replay: the direct oracle holds on this session')
+        return 1 if bad else 0
     if rp.get('kind') != 'case':
         print('replay kind not supported:', rp.get('kind'))
         return 2
